@@ -70,6 +70,70 @@ func peerGoroutines() []gor {
 	return out
 }
 
+func allStacks() string {
+	buf := make([]byte, 1<<16)
+	for {
+		n := runtime.Stack(buf, true)
+		if n < len(buf) {
+			return string(buf[:n])
+		}
+		buf = make([]byte, 2*len(buf))
+	}
+}
+
+// busyGoroutines counts goroutines other than the caller that are running or
+// runnable, i.e. that can still change the state of the case.
+func busyGoroutines() int {
+	n := 0
+	for i, g := range strings.Split(allStacks(), "\n\n") {
+		if i == 0 {
+			continue // the calling goroutine comes first
+		}
+		a, b := strings.IndexByte(g, '['), strings.IndexByte(g, ']')
+		if a < 0 || b < a {
+			continue
+		}
+		if st := g[a+1 : b]; strings.HasPrefix(st, "running") || strings.HasPrefix(st, "runnable") || strings.HasPrefix(st, "GC ") {
+			n++
+		}
+	}
+	return n
+}
+
+// processQuiescent reports that nothing but the caller can run: every other
+// goroutine is parked (three samples 20 ms apart).  The property's bound is
+// meant for a peer that stopped making progress, not for a machine that is
+// slow because it is loaded: when a bound expires while goroutines are still
+// runnable the harness keeps waiting (up to maxWait).
+func processQuiescent() bool {
+	for i := 0; i < 3; i++ {
+		if i > 0 {
+			time.Sleep(20 * time.Millisecond)
+		}
+		if busyGoroutines() > 0 {
+			return false
+		}
+	}
+	return true
+}
+
+const maxWait = 12 * bound
+
+// awaitBound calls wait(bound) until it succeeds, the process is quiescent at
+// the expiry of a bound (nothing can make it succeed any more), or maxWait is
+// used up.
+func awaitBound(wait func(d time.Duration) bool) bool {
+	for total := time.Duration(0); total < maxWait; total += bound {
+		if wait(bound) {
+			return true
+		}
+		if processQuiescent() {
+			return wait(time.Millisecond) // re-check once more
+		}
+	}
+	return false
+}
+
 func dumpOf(gs []gor) string {
 	var b strings.Builder
 	for _, g := range gs {
@@ -433,7 +497,12 @@ func siblingNonce(n netInfo) (uint64, bool) {
 		return 0, false
 	}
 	p.AssociateConnection(c)
-	fr, ok := c.firstFrame(bound)
+	var fr wframe
+	ok := awaitBound(func(d time.Duration) bool {
+		var got bool
+		fr, got = c.firstFrame(d)
+		return got
+	})
 	p.Disconnect()
 	p.WaitForDisconnect()
 	if !ok || fr.Cmd != "version" {
@@ -696,7 +765,12 @@ func (r *runner) remoteSend(e event) {
 			} else {
 				// the remote echoes the nonce of the version message
 				// the peer has just sent
-				fr, ok := r.conn.firstFrame(bound)
+				var fr wframe
+				ok := awaitBound(func(d time.Duration) bool {
+					var got bool
+					fr, got = r.conn.firstFrame(d)
+					return got || r.conn.closed.Load()
+				}) && fr.Cmd != ""
 				v, err := decodeVersion(fr.Payload)
 				if ok && fr.Cmd == "version" && err == nil {
 					nonce = v.Nonce
@@ -857,7 +931,10 @@ func (r *runner) doOp(caller int, o qop) {
 		r.p.QueueInventory(wire.NewInvVect(wire.InvType(o.InvType), &th))
 	case opGetters:
 		p := r.p
-		vk, va := p.VersionKnown(), p.VerAckReceived()
+		// the verack flag is read first: once it is set the version must
+		// already be known, whatever happens between the two reads
+		va := p.VerAckReceived()
+		vk := p.VersionKnown()
 		_ = p.ProtocolVersion()
 		_ = p.Connected()
 		_ = p.StatsSnapshot()
@@ -876,8 +953,7 @@ func (r *runner) doOp(caller int, o qop) {
 		_ = p.ID()
 		_ = p.String()
 		if va && !vk {
-			// read in this order a verack can only be known after the version
-			r.violate("VerAckReceived()=true was observed after VersionKnown()=false")
+			r.violate("VerAckReceived()=true was observed, then VersionKnown()=false")
 		}
 	case opYield:
 		runtime.Gosched()
@@ -908,7 +984,11 @@ func (r *runner) disconnect(who string) {
 // settle lets everything pending through, waits until the peer is quiescent
 // and compares the peer with the reference model.
 func (r *runner) settle(final bool) {
-	quiescent, closed := r.conn.settle(bound)
+	var quiescent, closed bool
+	awaitBound(func(d time.Duration) bool {
+		quiescent, closed = r.conn.settle(d)
+		return quiescent
+	})
 	r.queuedSinceSync = 0
 	hazard, _ := r.hazardState()
 	r.h("   settle: quiescent=%v closed=%v model=%s hazard=%v", quiescent, closed, r.mdl.state, hazard)
@@ -924,7 +1004,7 @@ func (r *runner) settle(final bool) {
 		return
 	}
 	if r.mdl.state == stMustFail {
-		if !closed && !r.conn.waitClosed(bound) {
+		if !closed && !awaitBound(r.conn.waitClosed) {
 			r.violate("the peer keeps the connection open although the remote sent %s, which the property says must be refused", r.mdl.reason)
 		}
 		return
@@ -960,15 +1040,18 @@ func (r *runner) checkLive(when string) {
 	}
 }
 
-func waitTimeout(f func(), d time.Duration) bool {
+// awaitCall runs f in a goroutine of the harness and waits for it to return.
+func awaitCall(f func()) bool {
 	ch := make(chan struct{})
 	go func() { f(); close(ch) }()
-	select {
-	case <-ch:
-		return true
-	case <-time.After(d):
-		return false
-	}
+	return awaitBound(func(d time.Duration) bool {
+		select {
+		case <-ch:
+			return true
+		case <-time.After(d):
+			return false
+		}
+	})
 }
 
 func (r *runner) finish(baseline map[int]bool) {
@@ -977,8 +1060,8 @@ func (r *runner) finish(baseline map[int]bool) {
 
 	// every caller must come back: the scripts keep the queue depth below
 	// the peer's channel buffers, so a blocked caller is stuck for good
-	if !waitTimeout(r.wg.Wait, bound) {
-		r.violate("a concurrent caller is still blocked inside QueueMessage/QueueInventory/Disconnect %v after the script ended", bound)
+	if !awaitCall(r.wg.Wait) {
+		r.violate("a concurrent caller is still blocked inside QueueMessage/QueueInventory/Disconnect more than %v after the script ended", bound)
 	}
 
 	if !r.conn.closed.Load() {
@@ -991,12 +1074,9 @@ func (r *runner) finish(baseline map[int]bool) {
 			r.disconnect("end of script")
 		}
 	}
-	if !waitTimeout(r.p.WaitForDisconnect, bound) {
-		// re-check once more before calling it a violation
-		if !waitTimeout(r.p.WaitForDisconnect, bound) {
-			r.violate("WaitForDisconnect did not return within %v of the disconnect", 2*bound)
-			r.disconnect("cleanup")
-		}
+	if !awaitCall(r.p.WaitForDisconnect) {
+		r.violate("WaitForDisconnect did not return within %v of the disconnect", bound)
+		r.disconnect("cleanup")
 	}
 	r.h("   WaitForDisconnect returned")
 
@@ -1004,6 +1084,7 @@ func (r *runner) finish(baseline map[int]bool) {
 	// began must be gone
 	start := time.Now()
 	nap := 50 * time.Microsecond
+	nextCheck := bound
 	for {
 		var extra []gor
 		for _, g := range peerGoroutines() {
@@ -1042,7 +1123,9 @@ func (r *runner) finish(baseline map[int]bool) {
 				break
 			}
 		}
-		if waited > 2*bound { // the bound, re-checked once more
+		if waited > nextCheck && !processQuiescent() && waited < maxWait {
+			nextCheck += bound // loaded machine: goroutines are still runnable
+		} else if waited > nextCheck {
 			sg := ""
 			if len(extra) > 0 {
 				sg = leakSignature(extra[0])
@@ -1058,7 +1141,7 @@ func (r *runner) finish(baseline map[int]bool) {
 				r.leaks[sg] = true
 			}
 			r.violate("%s%d goroutine(s) started by the peer package are still alive %v after WaitForDisconnect returned:\n%s",
-				pfx, len(extra), 2*bound, dumpOf(extra))
+				pfx, len(extra), waited.Round(time.Millisecond), dumpOf(extra))
 			break
 		}
 		time.Sleep(nap) // a full stack dump stops the world: back off
